@@ -272,7 +272,7 @@ func main() {
 		}
 		return
 	}
-	run.SetBudget(5*60e9, 40*60e9)
+	run.SetBudget(5*60e9, 20*60e9)
 	bound := 2
 	if run.Thorough() {
 		bound = 3
